@@ -14,11 +14,11 @@ Modelling decisions (trusted base)
 * A Go map is an association list with strictly increasing keys (`wf`).
 * `float64` values are not Lean floats.  A finite double is carried as the text
   Go's `%v` prints for it (`Dbl.fin`); a JSON number is a `NumTok` (canonical
-  integer literal, or other literal text); conversion `float64 → int32/int64`
-  of an integer literal is exact integer arithmetic (`roundF64`: round to
-  nearest, ties to even, 53 bits), of another literal exact rational arithmetic
-  (`decToF64Trunc`).  Out-of-range conversions give the amd64 result
-  (`MinInt32` / `MinInt64`).
+  integer literal, or other literal text).  Since the UseNumber fix (F-C18-long) integers never pass through
+  float64 (`json.Number` + `strconv.ParseInt`); the float64 conversions of the older code
+  are kept in Model/YsonV0.lean (`V0Float`).
+* The failed-assertion panics of the older parser are gone (checked assertions); `Res.panic`
+  is only produced by `V0Float`.
 * `time.Time` is carried as its RFC3339Nano text; `[]byte` as a list of bytes.
 * `Counter.Value` is `int32` for Int/Dedup counters and `int64` for Long ones
   (what `FromCRDT` produces).
@@ -61,6 +61,12 @@ inductive Err where
   | dedupHll             -- "parse dedup counter hll: unsupported element"
   | dedupHllInvalid      -- "parse dedup counter hll: invalid YSON"
   | dedupValue           -- "parse dedup counter value: invalid YSON"
+  | parseInt             -- "parse int: invalid YSON"             (since the UseNumber fix)
+  | parseLong            -- "parse long: invalid YSON"
+  | parseTextNode        -- "parse text node: invalid YSON"
+  | parseTextAttribute   -- "parse text attribute: invalid YSON"
+  | parseTreeAttribute   -- "parse tree attribute: invalid YSON"
+  | parseTreeNode        -- "parse tree node: invalid YSON"
 deriving DecidableEq, Repr
 
 /-- dynamic types of `interface{}` values produced by encoding/json -/
@@ -112,34 +118,8 @@ def NumTok.text : NumTok → Str
   | .int i => showInt i
   | .other t => t
 
-/-- round a natural to the nearest float64 (53-bit significand, ties to even); the
-result is again a natural (no overflow below 2^1024, far above int64) -/
-def roundF64 (n : Nat) : Nat :=
-  if n < 2 ^ 53 then n else
-  let sh := Nat.log2 n - 52
-  let q := n >>> sh
-  let r := n % 2 ^ sh
-  let half := 2 ^ (sh - 1)
-  let q' := if r > half || (r == half && q % 2 == 1) then q + 1 else q
-  q' <<< sh
 
-/-- Go `int64(f)` on amd64 (CVTTSD2SQ): truncation, out of range ⇒ MinInt64.
-`neg`/`m`: sign and integral part of the (already rounded) double. -/
-def toI64 (neg : Bool) (m : Nat) : Int :=
-  if neg then (if m ≤ 2 ^ 63 then -(m : Int) else -(2 ^ 63 : Int))
-  else (if m < 2 ^ 63 then (m : Int) else -(2 ^ 63 : Int))
-
-/-- Go `int32(f)` on amd64 (CVTTSD2SL): truncation, out of range ⇒ MinInt32 -/
-def toI32 (neg : Bool) (m : Nat) : Int :=
-  if neg then (if m ≤ 2 ^ 31 then -(m : Int) else -(2 ^ 31 : Int))
-  else (if m < 2 ^ 31 then (m : Int) else -(2 ^ 31 : Int))
-
-/-- `int64(float64(i))` for an integer literal `i` read by encoding/json -/
-def i64OfInt (i : Int) : Int := toI64 (decide (i < 0)) (roundF64 i.natAbs)
-def i32OfInt (i : Int) : Int := toI32 (decide (i < 0)) (roundF64 i.natAbs)
-
-/-! general decimal literals (only reached when a user object is mistaken for a
-typed wrapper and its `value` member is a non-integral double) -/
+/-! digits -/
 
 def isDigit (c : Nat) : Bool := 48 ≤ c && c ≤ 57
 
@@ -151,26 +131,6 @@ def takeDigits : Str → Str × Str
   | [] => ([], [])
   | c :: r => if isDigit c then (c :: (takeDigits r).1, (takeDigits r).2) else ([], c :: r)
 
-/-- parse a JSON number literal into (neg, mantissa, exp10): value = ±mantissa·10^exp10.
-Assumes the literal is well formed (it was accepted by the JSON scanner). -/
-def decOfText (t : Str) : Bool × Nat × Int :=
-  let (neg, t) := match t with
-    | 45 :: r => (true, r)
-    | _ => (false, t)
-  let (ip, t) := takeDigits t
-  let (fp, t) := match t with
-    | 46 :: r => takeDigits r
-    | _ => ([], t)
-  let e : Int := match t with
-    | c :: r =>
-      if c == 101 || c == 69 then
-        match r with
-        | 43 :: r' => (digitsVal (takeDigits r').1 0 : Int)
-        | 45 :: r' => -(digitsVal (takeDigits r').1 0 : Int)
-        | _ => (digitsVal (takeDigits r).1 0 : Int)
-      else 0
-    | [] => 0
-  (neg, digitsVal (ip ++ fp) 0, e - fp.length)
 
 /-! JSON number grammar `-?(0|[1-9][0-9]*)(\.[0-9]+)?([eE][+-]?[0-9]+)?`, phase by phase;
 each phase returns what it consumed and the rest -/
@@ -225,41 +185,28 @@ def isJsonNumber (t : Str) : Bool :=
   | some (a, []) => a == t
   | _ => false
 
-/-- integral part of the float64 nearest to p/q (q > 0), round-half-even, with
-subnormals; `none` = the double is ±Inf or too large for any integer type. -/
-def ratToF64Trunc (p q : Nat) : Option Nat :=
-  if p == 0 then some 0 else
-  -- first guess of e with 2^52 ≤ p / (q·2^e) < 2^53
-  let e0 : Int := (Nat.log2 p : Int) - (Nat.log2 q : Int) - 52
-  let scaled (e : Int) : Nat × Nat :=   -- p/(q·2^e) as a fraction
-    if e ≥ 0 then (p, q * 2 ^ e.toNat) else (p * 2 ^ (-e).toNat, q)
-  let e1 : Int :=
-    let (a, b) := scaled e0
-    if a / b < 2 ^ 52 then e0 - 1 else if a / b ≥ 2 ^ 53 then e0 + 1 else e0
-  let e : Int := if e1 < -1074 then -1074 else e1
-  if e > 971 then none else
-  let (a, b) := scaled e
-  let m0 := a / b
-  let r := a % b
-  let m := if 2 * r > b || (2 * r == b && m0 % 2 == 1) then m0 + 1 else m0
-  if e ≥ 0 then (if e > 80 then none else some (m * 2 ^ e.toNat)) else some (m / 2 ^ (-e).toNat)
+def inI32 (n : Int) : Bool := -(2 ^ 31 : Int) ≤ n && n < (2 ^ 31 : Int)
+def inI64 (n : Int) : Bool := -(2 ^ 63 : Int) ≤ n && n < (2 ^ 63 : Int)
 
-def decToF64Trunc (t : Str) : Bool × Option Nat :=
-  let (neg, m, e) := decOfText t
-  (neg, if e ≥ 0 then (if e > 400 then (if m == 0 then some 0 else none) else ratToF64Trunc (m * 10 ^ e.toNat) 1)
-        else (if e < -800 then some 0 else ratToF64Trunc m (10 ^ (-e).toNat)))
+/-- `strconv.ParseInt(n.String(), 10, _)` on a json.Number, before the range check: the
+literal must consist of an optional sign and digits.  Among JSON number literals these are
+the canonical integer literals and `-0`. -/
+def NumTok.toInt? : NumTok → Option Int
+  | .int i => some i
+  | .other t => if t == [45, 48] then some 0 else none
 
-def NumTok.toI64 : NumTok → Int
-  | .int i => i64OfInt i
-  | .other t => match decToF64Trunc t with
-    | (neg, some m) => Yson.toI64 neg m
-    | (_, none) => -(2 ^ 63 : Int)
+/-- parseInt64 (since the UseNumber fix: json.Number, no float64 in between) -/
+def NumTok.toI64? (n : NumTok) : Option Int :=
+  match n.toInt? with
+  | some i => if inI64 i then some i else none
+  | none => none
 
-def NumTok.toI32 : NumTok → Int
-  | .int i => i32OfInt i
-  | .other t => match decToF64Trunc t with
-    | (neg, some m) => Yson.toI32 neg m
-    | (_, none) => -(2 ^ 31 : Int)
+/-- parseInt32 -/
+def NumTok.toI32? (n : NumTok) : Option Int :=
+  match n.toInt? with
+  | some i => if inI32 i then some i else none
+  | none => none
+
 
 /-! ## base64 (encoding/base64 StdEncoding) -/
 
@@ -583,22 +530,25 @@ def J.getStr? (kvs : List (Str × J)) (k : Str) : Option Str :=
   | .str s => some s
   | _ => none
 
-/-- `x.(float64)` without ok: panics -/
-def J.asNum (j : J) : Res NumTok :=
+/-- parseInt32(x): x must be a json.Number holding an int32 literal -/
+def J.asInt32 (j : J) : Res Int :=
   match j with
-  | .num n => .ok n
-  | j => .panic j.ty .float64
+  | .num n => (match n.toI32? with | some i => .ok i | none => .err .parseInt)
+  | _ => .err .parseInt
 
-/-- `x.(string)` without ok: panics -/
-def J.asStr (j : J) : Res Str :=
+/-- parseInt64(x) -/
+def J.asInt64 (j : J) : Res Int :=
   match j with
-  | .str s => .ok s
-  | j => .panic j.ty .string
+  | .num n => (match n.toI64? with | some i => .ok i | none => .err .parseLong)
+  | _ => .err .parseLong
 
-/-- `attrs[k] = v.(string)` for every member -/
-def parseAttrs : List (Str × J) → Res Attrs
+/-- `attrs[k] = v.(string)` with ok for every member; `e` is the caller's error -/
+def parseAttrs (e : Err) : List (Str × J) → Res Attrs
   | [] => .ok []
-  | (k, v) :: r => (J.asStr v).bind fun s => (parseAttrs r).bind fun rest => .ok ((k, s) :: rest)
+  | (k, v) :: r =>
+    match v with
+    | .str s => (parseAttrs e r).bind fun rest => .ok ((k, s) :: rest)
+    | _ => .err e
 
 /-- parseCounter -/
 def parseCounter (raw : List (Str × J)) : Res Counter :=
@@ -606,8 +556,8 @@ def parseCounter (raw : List (Str × J)) : Res Counter :=
   | .obj value =>
     match J.getStr? value sType with
     | some t =>
-      if t == sInt then (J.asNum (J.get value sValue)).bind fun n => .ok (.int n.toI32)
-      else if t == sLong then (J.asNum (J.get value sValue)).bind fun n => .ok (.long n.toI64)
+      if t == sInt then (J.asInt32 (J.get value sValue)).bind fun i => .ok (.int i)
+      else if t == sLong then (J.asInt64 (J.get value sValue)).bind fun i => .ok (.long i)
       else .err .counterType
     | none => .err .counterType
   | _ => .err .counterValue
@@ -624,8 +574,8 @@ def parseDedupCounter (raw : List (Str × J)) : Res Counter :=
       | none => .err .dedupHllInvalid
       | some regs =>
         if ct == sInt then
-          match J.get raw sValue with
-          | .num n => .ok (.dedup n.toI32 regs)
+          match J.asInt32 (J.get raw sValue) with
+          | .ok i => .ok (.dedup i regs)
           | _ => .err .dedupValue
         else .err .dedupType
 
@@ -637,9 +587,9 @@ def parseTextNode (node : J) : Res TextNode :=
     | none => .err .parseTextValue
     | some val =>
       match J.get n sAttrs with
-      | .obj attrs => (parseAttrs attrs).bind fun a => .ok ⟨val, a⟩
+      | .obj attrs => (parseAttrs .parseTextAttribute attrs).bind fun a => .ok ⟨val, a⟩
       | _ => .ok ⟨val, []⟩
-  | j => .panic j.ty .map
+  | _ => .err .parseTextNode
 
 def parseText : List J → Res (List TextNode)
   | [] => .ok []
@@ -648,22 +598,22 @@ def parseText : List J → Res (List TextNode)
 /-- `raw["attrs"].(map[string]interface{})` then the string assertions -/
 def treeAttrsIn (raw : List (Str × J)) : Res Attrs :=
   match J.get raw sAttrs with
-  | .obj attrs => parseAttrs attrs
+  | .obj attrs => parseAttrs .parseTreeAttribute attrs
   | _ => .ok []
 
 mutual
-/-- parseTreeNode on `child.(map[string]interface{})` -/
+/-- parseTreeNode on `child.(map[string]interface{})` (with ok) -/
 def parseTreeNode : J → Res TreeNode
   | .obj raw =>
     let ty := (J.getStr? raw sType).getD sRoot
     let value := (J.getStr? raw sValue).getD []
     (treeAttrsIn raw).bind fun attrs =>
     (treeChildrenIn raw).bind fun children => .ok (.mk ty value attrs children)
-  | .null => .panic .nil .map
-  | .bool _ => .panic .bool .map
-  | .num _ => .panic .float64 .map
-  | .str _ => .panic .string .map
-  | .arr _ => .panic .slice .map
+  | .null => .err .parseTreeNode
+  | .bool _ => .err .parseTreeNode
+  | .num _ => .err .parseTreeNode
+  | .str _ => .err .parseTreeNode
+  | .arr _ => .err .parseTreeNode
 /-- `raw["children"].([]interface{})` and the loop over it -/
 def treeChildrenIn : List (Str × J) → Res (List TreeNode)
   | [] => .ok []
@@ -680,15 +630,19 @@ end
 
 /-- parseTypedValue (the caller has checked that `raw["type"]` is the string `t`) -/
 def parseTypedValue (raw : List (Str × J)) (t : Str) : Res Yson :=
-  if t == sInt then (J.asNum (J.get raw sValue)).bind fun n => .ok (.int n.toI32)
-  else if t == sLong then (J.asNum (J.get raw sValue)).bind fun n => .ok (.long n.toI64)
+  if t == sInt then (J.asInt32 (J.get raw sValue)).bind fun i => .ok (.int i)
+  else if t == sLong then (J.asInt64 (J.get raw sValue)).bind fun i => .ok (.long i)
   else if t == sBinData then
-    (J.asStr (J.get raw sValue)).bind fun s =>
-      match b64Decode s with
-      | some b => .ok (.bytes b)
-      | none => .err .parseBinData
+    match J.get raw sValue with
+    | .str s =>
+      (match b64Decode s with
+       | some b => .ok (.bytes b)
+       | none => .err .parseBinData)
+    | _ => .err .parseBinData
   else if t == sDate then
-    (J.asStr (J.get raw sValue)).bind fun s => if dateValid s then .ok (.date s) else .err .parseDate
+    match J.get raw sValue with
+    | .str s => if dateValid s then .ok (.date s) else .err .parseDate
+    | _ => .err .parseDate
   else if t == sCounter then (parseCounter raw).map .counter
   else if t == sDedupCounter then (parseDedupCounter raw).map .counter
   else if t == sTree then
@@ -702,7 +656,8 @@ def parseTypedValue (raw : List (Str × J)) (t : Str) : Res Yson :=
   else .err .unsupported
 
 mutual
-/-- the `switch v := v.(type)` shared by parseObject and parseArray -/
+/-- the `switch v := v.(type)` shared by parseObject and parseArray; a bare number becomes a
+Double (parseScalar: `json.Number.Float64()`) -/
 def parseMember : J → Res Yson
   | .obj kvs =>
     match J.getStr? kvs sType with
@@ -751,8 +706,6 @@ def sortedKeys : List Str → Bool
 def wfAttrs (a : Attrs) : Bool :=
   sortedKeys (a.map (·.1)) && a.all (fun p => wfStr p.1 && wfStr p.2)
 
-def inI32 (n : Int) : Bool := -(2 ^ 31 : Int) ≤ n && n < (2 ^ 31 : Int)
-def inI64 (n : Int) : Bool := -(2 ^ 63 : Int) ≤ n && n < (2 ^ 63 : Int)
 def wfBytes (b : List Nat) : Bool := b.all (· < 256)
 
 mutual
